@@ -32,6 +32,10 @@ theorem ans_unicast_id (id : Nat) : Gen.ReplyNet.ans_unicast_id id = id := rfl
 theorem ans_no_add_question :
     (Gen.ReplyNet.ans_multicast_calls_add_question || Gen.ReplyNet.ans_fill_calls_add_question) = false := rfl
 
+/-- `add_answer_at_time(record, 0)`: with `now == 0` the answer is always stored -/
+theorem answer_now_zero (expired : Bool) : Gen.Outgoing.answer_accepted true 0 expired = true := by
+  simp [Gen.Outgoing.answer_accepted]
+
 /-! ### the listener's split of the source sockaddr -/
 theorem l_two_tuple (n : Nat) : Gen.ReplyNet.l_two_tuple n = true ↔ n = 2 := by simp [Gen.ReplyNet.l_two_tuple]
 
